@@ -26,6 +26,7 @@ def run(ctx):
     ctx.anchor(ctx.fn1('Oomd::BaseKillPlugin::run'), 'ruleset', 'ret')
     ctx.anchor(ctx.fn1('Oomd::Engine::Ruleset::pause_actions'), 'duration')
     P = ctx.prog
+    ruleset_wiring(ctx, "C05", ['post_action_delay'])
     impl = ctx.fn1("Oomd::Engine::Ruleset::runOnceImpl")
     chain = ctx.fn1("Oomd::Engine::Ruleset::run_action_chain")
     pause = ctx.fn1("Oomd::Engine::Ruleset::pause_actions")
